@@ -253,7 +253,10 @@ def run(cx):
             cx.violation("%s: %s; %s" % (describe(c), ", ".join(kinds), mism2[i][0][1][:700]),
                          {"leg": "G", "config": {k: c[k] for k in ("id", "nodefaults", "deny", "ov", "paths")},
                           "findings": mism2[i][:6]})
-        if not cx.violations:
+        # a configuration that conforms when it is built and probed again was disturbed from outside the first time
+        # (evaluations are run with a 5 s limit and many at once): up to three of them are noted, more make the run
+        # inconclusive
+        if not cx.violations and len(mism) > 3:
             raise vlib.Inconclusive("%d disagreements were not reproduced on re-execution" % len(mism))
     if not cx.replay and specfail and not cx.violations:
         raise vlib.Inconclusive("Config.tla invariants fail on the real base graph but the real configuration conforms: %s"
